@@ -399,6 +399,42 @@ def job_restorestore(kind, tier, seed):
     return ck.export()
 
 
+def job_lc_view(tier, seed):
+    """the loop counter visible to the program (register lc) is the counter of the innermost active block repeat (frame bcn-1
+    while a loop is active, frame 0 otherwise): read and write through the real RegToBus16 / RegFromBus16 helpers"""
+    E = env()
+    ck = core.Check('C09', 'model_checking', tier, seed)
+    R = E.R()
+    inv = E.inv()
+    ex, st0, ctx = E.base()
+    LC = c08.REGNAMES.index('lc')
+
+    def inner(f):
+        out = R['bkrep_stack.%s[0]' % f]
+        for k in (1, 2, 3):
+            out = z3.If(z3.And(R['lp'] != 0, R['bcn'] == k + 1), R['bkrep_stack.%s[%d]' % (f, k)], out)
+        return out
+    A = inv + [z3.Implies(R['lp'] != 0, z3.And(z3.UGE(R['bcn'], 1), z3.ULE(R['bcn'], 4)))]
+    ex.exits, ex.oblig = [], []
+    r = ex.call(st0.fork(), '@k_reg2bus', [ctx['interp'], LC, 0])
+    ck.prove('LoopCounterView.read', A, z3.And(bv(r[1], 16) == inner('lc'), kit.obligations(ex)), vars=c03.vars_of(R),
+             sample='reading lc returns the counter of the innermost active block repeat (frame bcn-1), or frame 0 when no loop is active')
+    v = z3.BitVec('v', 16)
+    s2 = st0.fork()
+    ex.exits, ex.oblig = [], []
+    r = ex.call(s2, '@k_bus2reg', [ctx['interp'], LC, v])
+    post = E.post_regs(r[0])
+    exp = dict(R)
+    for k in range(4):
+        here = z3.If(R['lp'] != 0, R['bcn'] == k + 1, z3.BoolVal(k == 0))
+        exp['bkrep_stack.lc[%d]' % k] = z3.If(here, v, R['bkrep_stack.lc[%d]' % k])
+    g = c03.diff_goal(post, exp, R)[0] + [kit.obligations(ex)]
+    ck.prove('LoopCounterView.write', A, z3.And(*g), vars=c03.vars_of(R, {'v': v}), sample='writing lc changes the counter of the innermost active block repeat and nothing else')
+    ck.ninstr += ex.ninstr
+    ck.nstates += 2
+    return ck.export()
+
+
 def _dispatch(fn, args):
     return fn(*args)
 
@@ -406,7 +442,7 @@ def _dispatch(fn, args):
 def run(tier, seed):
     ck = core.Check('C09', 'model_checking', tier, seed)
     E = env()
-    ck.funcs.update(['Interpreter::Run (rep / block-repeat bookkeeping, fetch, dispatch)', 'rep (2)', 'rep_r6', 'Repeat', 'bkrep (2)', 'bkrep_r6', 'BlockRepeat', 'break_', 'bkrepsto', 'bkrepsto_memsp', 'bkreprst', 'bkreprst_memsp',
+    ck.funcs.update(['Interpreter::Run (rep / block-repeat bookkeeping, fetch, dispatch)', 'rep (2)', 'rep_r6', 'Repeat', 'bkrep (2)', 'bkrep_r6', 'BlockRepeat', 'break_', 'bkrepsto', 'bkrepsto_memsp', 'bkreprst', 'bkreprst_memsp', 'RegisterState::Lc (through RegToBus16 / RegFromBus16 of lc)',
                      'StoreBlockRepeat', 'RestoreBlockRepeat', 'std::copy / std::copy_backward on the frame array', 'moda4 (inc)', 'alu (add #imm16)', 'nop'])
     ck.assumptions += ['one-step obligations: Inv, prpage == 0, ie == 0, pc < 0x3FFFE, the dispatched instruction is a one-word nop (it must not touch loop state - instructions that do are the row-level obligations)',
                        'decoders[opcode] inside Run is answered from the real decode table (unique matching row; C02 proves Decode<Interpreter> returns it)',
@@ -414,7 +450,7 @@ def run(tier, seed):
     n_max = 3 if tier == 'quick' else 6
     ck.bounds += ['whole programs: counts N = 0..%d enumerated, nesting depth 1..4 with count 1 per level, %s cycles stepped one Run(1) at a time' % (n_max, 'up to 20'), 'one-step and row obligations: no bound on values']
     ck.stubs += E.tabulated
-    jobs = [(job_step, (k, tier, seed)) for k in ('rep', 'loop', 'both', 'plain')] + [(job_rows, (tier, seed))]
+    jobs = [(job_step, (k, tier, seed)) for k in ('rep', 'loop', 'both', 'plain')] + [(job_rows, (tier, seed)), (job_lc_view, (tier, seed))]
     jobs += [(job_program, ('rep', n, tier, seed)) for n in range(n_max + 1)] + [(job_program, ('bkrep', n, tier, seed)) for n in range(n_max + 1)]
     jobs += [(job_program, ('nested', d, tier, seed)) for d in (1, 2, 3, 4)]
     jobs += [(job_storestore, (k, tier, seed)) for k in ('memsp', 'arrn')]
